@@ -133,6 +133,10 @@ class SymExec:
         if isinstance(t, ast.Compare) and len(t.ops) == 1:
             l, r, op = t.left, t.comparators[0], t.ops[0]
             lk = U(l) if isinstance(l, (ast.Name, ast.Attribute)) else None
+            # `x is None` for an x that holds a number: decided
+            if lk is not None and lk not in self.flags and isinstance(r, ast.Constant) and r.value is None and isinstance(self.env.get(lk), Alg) \
+                    and isinstance(op, (ast.Is, ast.Eq, ast.IsNot, ast.NotEq)):
+                return isinstance(op, (ast.IsNot, ast.NotEq))
             if lk in self.flags and isinstance(r, ast.Constant):
                 v = self.flags[lk]
                 if isinstance(op, (ast.Eq, ast.Is)):
